@@ -345,6 +345,11 @@ V("asset-reserve-reads-freeze", "C05", "pyteal/ast/asset.py", "            immed
 V("cond-compares-with-previous-arm-only", "C05", "pyteal/ast/cond.py", "                require_type(arg[1], value_type)\n", "                require_type(arg[1], value_type)\n                value_type = None\n", "R05.10")
 V("assert-extra-conds-skip-last", "C05", "pyteal/ast/assert_.py", "        for cond_single in additional_conds:\n", "        for cond_single in additional_conds[:-1]:\n", "R05.10")
 V("twin-while-do-check-via-local", "C05", "pyteal/ast/while_.py", "        require_type(doBlock, TealType.none)\n", "        wanted = TealType.none\n        require_type(doBlock, wanted)\n", None, "quiet")
+V("binary-lowering-without-value-checks", "C05", "pyteal/ast/binaryexpr.py", "        require_type(self.argLeft, TealType.anytype)\n        require_type(self.argRight, TealType.anytype)\n", "", "R05.11")
+V("returned-value-receiver-by-class", "C19", "pyteal/ast/abi/type.py", "        if output.type_spec() != self.produced_type_spec():", "        if type(output.type_spec()) is not type(self.produced_type_spec()):", "R19.7")
+V("named-field-index-reversed", "C07", "pyteal/ast/abi/tuple.py", "            self.__field_index[name] = index\n", "            self.__field_index[name] = len(anns) - 1 - index\n", "R07.9")
+V("flatten-asks-for-fixed-convention", "C11", "pyteal/compiler/flatten.py", "subroutine.get_declaration_by_option(options.use_frame_pointers)", "subroutine.get_declaration_by_option(True)", "R11.9")
+V("twin-flatten-convention-via-local", "C11", "pyteal/compiler/flatten.py", "            dexpr = subroutine.get_declaration_by_option(options.use_frame_pointers)", "            fp = options.use_frame_pointers\n            dexpr = subroutine.get_declaration_by_option(fp)", None, "quiet")
 V("if-chain-else-unchecked", "C05", "pyteal/ast/if_.py", "            require_type(self.elseBranch, self.thenBranch.type_of())\n\n        return", "            pass\n\n        return", "R05.9")
 V("if-chain-only-plain-else-checked", "C05", "pyteal/ast/if_.py", "            require_type(self.elseBranch, self.thenBranch.type_of())\n\n        return", "            if not isinstance(self.elseBranch, If):\n                require_type(self.elseBranch, self.thenBranch.type_of())\n\n        return", "R05.9")
 V("twin-if-chain-local-type", "C05", "pyteal/ast/if_.py", "            require_type(self.elseBranch, self.thenBranch.type_of())\n\n        return", "            then_type = self.thenBranch.type_of()\n            require_type(self.elseBranch, then_type)\n\n        return", None, "quiet")
